@@ -21,3 +21,20 @@ Example C17_inside_pair_refuted :
   /\ get_original_function_name is_start is_start is_ws 128 get_line toks 1 [120]
      <> Ok (spec_resolve is_start is_start is_ws 128 get_line toks 1 [120]).
 Proof. split; [vm_compute; reflexivity|vm_compute; discriminate]. Qed.
+
+(* the position-based entry points (SourceMap / SourceMapIndex / DecodedMap::get_original_function_name): the position is looked
+   up (closest preceding token, first among equals on an exact hit: C04) and the name is resolved from the token found *)
+From SM Require Import Model.Glb Spec.Glb Proofs.GlbProofs Proofs.NameResEntry.
+Theorem C17_by_position : forall is_start is_cont is_ws window get_line tokens line col name,
+  sorted tok_key tokens -> Forall (tok_ok get_line) tokens -> Forall (fun t => is_u32 (t_dc t) = true) tokens -> is_u32 col = true ->
+  match lookup_token tokens line col with
+  | Ok (Some (i, t, _)) =>
+      glb_spec tok_key tokens (line, col) (Some (i, t)) /\
+      sm_get_original_function_name is_start is_cont is_ws window get_line tokens line col name
+      = Ok (spec_resolve is_start is_cont is_ws window get_line tokens i name)
+  | Ok None => (forall t, In t tokens -> plt (line, col) (tok_key t))
+               /\ sm_get_original_function_name is_start is_cont is_ws window get_line tokens line col name = Ok None
+  | _ => False
+  end.
+Proof. exact NameResEntry.C17_by_position. Qed.
+Print Assumptions C17_by_position.
